@@ -522,7 +522,7 @@ Qed.
 
 (* ---- the failure handler ---- *)
 Lemma fail_batch_spec st batch D st' r :
-  Core (f_fs st) (f_usage st) batch D -> D = map snd (f_durable st) ->
+  Core (f_fs st) (f_usage st) batch D ->
   (forall e, In e batch -> pe_dirty e = true /\ pe_res e <> None) ->
   (forall x, In x (f_maydata st) -> In x (exts_of batch)) ->
   fail_batch fault st batch = (st', r) ->
@@ -533,7 +533,7 @@ Lemma fail_batch_spec st batch D st' r :
   (forall x, In x (f_maydata st') -> In x (exts_of (f_queue st'))) /\
   (forall e, In e batch -> pe_quar e = true -> In e (f_queue st')).
 Proof.
-  intros C HD Hall Hmay H. unfold fail_batch in H. fold (scrubbable batch) in H.
+  intros C Hall Hmay H. unfold fail_batch in H. fold (scrubbable batch) in H.
   set (l := exts_of (scrubbable batch)) in *.
   (* the quarantined version of the batch: same extents, flags still fine *)
   assert (Cq : forall f u, Core f u batch D -> Core f u (map quarantine batch) D).
@@ -621,9 +621,12 @@ Proof.
   - unfold clear_scrubbed in *. destruct (pe_quar e0); [apply Hall; exact He0 | cbn in Hr; congruence].
 Qed.
 
-(* ---- the invariant of the write path ---- *)
+(* ---- the invariant of the write path; X: extents owned by somebody else (records deleted and
+   waiting for their retirement) ---- *)
+Variable X : list (N * N).
+
 Record FInv (st : fstate) : Prop := {
-  fv_core : Core (f_fs st) (f_usage st) (f_queue st) (map snd (f_durable st));
+  fv_core : Core (f_fs st) (f_usage st) (f_queue st) (map snd (f_durable st) ++ X);
   fv_may : forall x, In x (f_maydata st) -> In x (exts_of (f_queue st));
   fv_dirty : forall e, In e (f_queue st) -> pe_res e <> None -> pe_dirty e = true
 }.
@@ -649,7 +652,7 @@ Proof.
   intros I H. unfold attempt in H. destruct (f_queue st) as [|e0 t0] eqn:Q.
   - inversion H; subst. split; [exact I|]. split; [intros _; split; [exact Q | exists []; split; reflexivity]|].
     split; [congruence|]. split; [tauto|]. split; [congruence|]. split; [discriminate | intros e []].
-  - set (q := e0 :: t0) in *. set (D := map snd (f_durable st)).
+  - set (q := e0 :: t0) in *. set (D := map snd (f_durable st) ++ X).
     pose proof (fv_core _ I) as C. rewrite Q in C. fold q D in C.
     destruct (alloc_all (f_fs st) (f_usage st) [] q) as [[[f1 u1] q1] fits] eqn:EA.
     destruct (alloc_all_spec D q [] (f_fs st) (f_usage st) f1 u1 q1 fits C EA) as (C1 & D1 & Id1 & Fit1 & Keep1).
@@ -711,8 +714,7 @@ Proof.
       { destruct Hsx as [(A1 & A2 & A3 & A4 & A5 & A6)|Hx]; [|exact Hx]. cbn in *. repeat split; try assumption. rewrite A6. exact Mb. }
       destruct Fx as (X1 & X2 & X3 & X4 & X5).
       assert (Cx : Core (f_fs sx) (f_usage sx) batch D) by (rewrite X1, X2; exact Cb).
-      assert (HDx : D = map snd (f_durable sx)) by (rewrite X3; reflexivity).
-      destruct (fail_batch_spec sx batch D sy ry Cx HDx Hall X5 Hf) as (Cy & Dy & Idy & Ry & Py & Piy & Pmy & My & Qy).
+      destruct (fail_batch_spec sx batch D sy ry Cx Hall X5 Hf) as (Cy & Dy & Idy & Ry & Py & Piy & Pmy & My & Qy).
       split; [split|].
       - rewrite Dy, X3. exact Cy.
       - exact My.
@@ -773,7 +775,7 @@ Proof.
       destruct (publish_exts batch (fun e He => proj2 (Hall e He))) as [Pe Pi].
       inversion H; subst st' r. cbn [f_fs f_queue f_durable f_usage f_poison f_calls f_maydata].
       split; [split; cbn [f_fs f_queue f_durable f_usage f_poison f_calls f_maydata]|].
-      * rewrite X1, X2, X3, map_app, Pe.
+      * rewrite X1, X2, X3, map_app, Pe, <- app_assoc. fold D.
         split.
         -- exact (co_fs _ _ _ _ Cb).
         -- intros b. cbn [exts_of app]. exact (co_one _ _ _ _ Cb b).
@@ -829,9 +831,9 @@ Qed.
 
 End WithOracle.
 
-Lemma enqueue_inv st id blocks : FInv st -> 0 < blocks -> FInv (enqueue st id blocks).
+Lemma enqueue_inv X st id blocks : FInv X st -> 0 < blocks -> FInv X (enqueue st id blocks).
 Proof.
-  intros I Hb. pose proof (fv_core _ I) as C. unfold enqueue.
+  intros I Hb. pose proof (fv_core _ _ I) as C. unfold enqueue.
   assert (E : exts_of (f_queue st ++ [mkpe id blocks None false false]) = exts_of (f_queue st)).
   { rewrite exts_of_app. cbn. rewrite app_nil_r. reflexivity. }
   split; cbn [f_fs f_queue f_durable f_usage f_poison f_calls f_maydata].
@@ -843,11 +845,11 @@ Proof.
     + rewrite E. exact (co_usage _ _ _ _ C).
     + intros e He. apply in_app_or in He. destruct He as [He|[<-|[]]]; [exact (co_flags _ _ _ _ C e He)|].
       unfold flags_ok. cbn. split; [exact Hb|]. split; [intros _; split; reflexivity | discriminate].
-  - rewrite E. exact (fv_may _ I).
-  - intros e He Hr. apply in_app_or in He. destruct He as [He|[<-|[]]]; [exact (fv_dirty _ I e He Hr) | cbn in Hr; congruence].
+  - rewrite E. exact (fv_may _ _ I).
+  - intros e He Hr. apply in_app_or in He. destruct He as [He|[<-|[]]]; [exact (fv_dirty _ _ I e He Hr) | cbn in Hr; congruence].
 Qed.
 
-Lemma finit_inv d f : d < U64 -> initialize d = FOk f -> FInv (finit f).
+Lemma finit_inv d f : d < U64 -> initialize d = FOk f -> FInv [] (finit f).
 Proof.
   intros Hd Hi. destruct (initialize_Inv d f Hi Hd) as (I & Dv & F).
   split; cbn.
@@ -873,12 +875,12 @@ Definition fcall_step (fault : N -> bool) (st : fstate) (c : fcall) : fstate :=
 
 Definition fcalls (fault : N -> bool) (st : fstate) (cs : list fcall) : fstate := fold_left (fcall_step fault) cs st.
 
-Lemma fcalls_inv fault cs : forall st, FInv st -> FInv (fcalls fault st cs).
+Lemma fcalls_inv fault cs : forall st, FInv [] st -> FInv [] (fcalls fault st cs).
 Proof.
   unfold fcalls. induction cs as [|c t IH]; intros st I; [exact I|]. cbn [fold_left]. apply IH.
   destruct c as [id blocks|]; cbn [fcall_step].
   - destruct (0 <? blocks) eqn:E; [apply enqueue_inv; [exact I | apply N.ltb_lt; exact E] | exact I].
-  - destruct (flush fault st) as [st' r] eqn:EF. exact (proj1 (flush_spec fault st st' r I EF)).
+  - destruct (flush fault st) as [st' r] eqn:EF. exact (proj1 (flush_spec fault [] st st' r I EF)).
 Qed.
 
 (* MAIN 1 (C05 through failures): on a fresh device, after any sequence of inserts and flushes and
@@ -894,7 +896,7 @@ Theorem ownership_partition_through_failures fault d f cs :
   (forall b, DS <= b < dev_sectors (f_fs st) -> (free (f_fs st) b <-> cnt b owned = O)) /\
   f_usage st = sum_blocks owned.
 Proof.
-  intros Hd Hi. cbv zeta. pose proof (fv_core _ (fcalls_inv fault cs _ (finit_inv d f Hd Hi))) as C.
+  intros Hd Hi. cbv zeta. pose proof (fv_core _ _ (fcalls_inv fault cs _ (finit_inv d f Hd Hi))) as C. rewrite app_nil_r in C.
   split; [exact (co_fs _ _ _ _ C)|]. split; [exact (co_one _ _ _ _ C)|]. split; [exact (co_part _ _ _ _ C) | exact (co_usage _ _ _ _ C)].
 Qed.
 
@@ -906,8 +908,8 @@ Theorem unscrubbed_extents_are_never_free fault d f cs x b :
   In x (f_maydata st) -> blk_in b x -> ~ free (f_fs st) b.
 Proof.
   intros Hd Hi. cbv zeta. intros Hx Hb. pose proof (fcalls_inv fault cs _ (finit_inv d f Hd Hi)) as I.
-  apply (core_not_free _ _ _ _ b (fv_core _ I)). apply cnt_pos. exists x. split; [|exact Hb].
-  apply in_or_app. left. exact (fv_may _ I x Hx).
+  apply (core_not_free _ _ _ _ b (fv_core _ _ I)). apply cnt_pos. exists x. split; [|exact Hb].
+  apply in_or_app. left. exact (fv_may _ _ I x Hx).
 Qed.
 
 (* MAIN 3 (C09): a flush answers Ok only when the device is not poisoned and every entry queued
@@ -925,6 +927,258 @@ Theorem flush_is_honest fault d f cs :
   (forall e, In e (f_queue st) -> pe_quar e = true -> f_queue st' <> [] -> In e (f_queue st')).
 Proof.
   intros Hd Hi. cbv zeta. intros st' r H. pose proof (fcalls_inv fault cs _ (finit_inv d f Hd Hi)) as I.
-  destruct (flush_spec fault _ st' r I H) as (_ & A & B & C & D & E).
+  destruct (flush_spec fault [] _ st' r I H) as (_ & A & B & C & D & E).
   split; [intros Hr; split; [exact (A Hr) | exact (C Hr)]|]. split; [exact B|]. split; [exact D | exact E].
+Qed.
+
+(* ================================================================================================
+   Deletes of published records and their retirement
+   ================================================================================================ *)
+
+Lemma core_swap f u q D D' :
+  (forall b, cnt b D' = cnt b D) -> sum_blocks D' = sum_blocks D -> (forall x, In x D' -> In x D) ->
+  Core f u q D -> Core f u q D'.
+Proof.
+  intros Hc Hs Hi C. split.
+  - exact (co_fs _ _ _ _ C).
+  - intros b. rewrite cnt_app, Hc, <- cnt_app. exact (co_one _ _ _ _ C b).
+  - intros b Hb. rewrite cnt_app, Hc, <- cnt_app. exact (co_part _ _ _ _ C b Hb).
+  - intros x Hx. apply (co_ext _ _ _ _ C). apply in_app_or in Hx. destruct Hx as [Hx|Hx]; apply in_or_app; [left; exact Hx | right; exact (Hi x Hx)].
+  - rewrite sum_blocks_app, Hs, <- sum_blocks_app. exact (co_usage _ _ _ _ C).
+  - exact (co_flags _ _ _ _ C).
+Qed.
+
+Lemma take_durable_spec id : forall l x l', take_durable id l = (Some x, l') ->
+  (forall b, cnt b (map snd l) = cnt b (x :: map snd l')) /\ sum_blocks (map snd l) = snd x + sum_blocks (map snd l') /\
+  (forall y, In y (x :: map snd l') <-> In y (map snd l)) /\ map fst l' ++ [id] = map fst l' ++ [id].
+Proof.
+  induction l as [|[i y] t IH]; intros x l' H; cbn [take_durable] in H; [discriminate|].
+  destruct (i =? id) eqn:E.
+  - inversion H; subst. cbn. repeat split; try tauto; try reflexivity.
+  - destruct (take_durable id t) as [r t'] eqn:ET. inversion H; subst r l'. destruct (IH x t' eq_refl) as (A & B & C & _).
+    cbn [map snd cnt sum_blocks]. split; [intros b; rewrite A; cbn [cnt]; lia|]. split; [rewrite B; lia|]. split; [|reflexivity].
+    intros z. cbn [In]. rewrite <- C. cbn [In]. tauto.
+Qed.
+
+Definition RInv (rs : rstate) : Prop := FInv (map snd (r_pending rs)) (r_core rs).
+
+Lemma rdelete_inv rs id : RInv rs -> RInv (rdelete rs id).
+Proof.
+  unfold RInv, rdelete. intros I. destruct (take_durable id (f_durable (r_core rs))) as [[x|] d'] eqn:E; [|exact I].
+  destruct (take_durable_spec id _ x d' E) as (A & B & C & _).
+  cbn [r_core r_pending]. rewrite map_app. cbn [map snd].
+  split; cbn [set_durable f_fs f_queue f_durable f_usage f_poison f_calls f_maydata].
+  - apply (core_swap _ _ _ (map snd (f_durable (r_core rs)) ++ map snd (r_pending rs))); [| | |exact (fv_core _ _ I)].
+    + intros b. rewrite !cnt_app, A. cbn [cnt]. lia.
+    + rewrite !sum_blocks_app, B. cbn [sum_blocks]. lia.
+    + intros y Hy. apply in_app_or in Hy. destruct Hy as [Hy|Hy].
+      * apply in_or_app. left. apply C. right. exact Hy.
+      * apply in_app_or in Hy. destruct Hy as [Hy|[<-|[]]]; [apply in_or_app; right; exact Hy | apply in_or_app; left; apply C; left; reflexivity].
+  - exact (fv_may _ _ I).
+  - exact (fv_dirty _ _ I).
+Qed.
+
+Lemma renqueue_inv rs id blocks : RInv rs -> 0 < blocks -> RInv (renqueue rs id blocks).
+Proof. unfold RInv, renqueue. cbn. intros I H. apply enqueue_inv; assumption. Qed.
+
+Section RetProofs.
+Variable fault : N -> bool.
+
+(* the retirements: everything pending is given back, or nothing is and the device is poisoned *)
+Lemma retire_pending_spec rs rs' r : RInv rs -> retire_pending fault rs = (rs', r) ->
+  RInv rs' /\ f_queue (r_core rs') = f_queue (r_core rs) /\ f_durable (r_core rs') = f_durable (r_core rs) /\
+  (r = ROk -> r_pending rs' = []) /\ (r <> ROk -> r_pending rs' = r_pending rs /\ (r_pending rs <> [] -> r = RIndet /\ f_poison (r_core rs') = true)) /\
+  (f_poison (r_core rs) = true -> f_poison (r_core rs') = true) /\ (r = ROk -> f_poison (r_core rs') = f_poison (r_core rs)).
+Proof.
+  unfold RInv. intros I H. unfold retire_pending in H. destruct (r_pending rs) as [|p0 pt] eqn:P.
+  - inversion H; subst rs' r. split; [rewrite P; exact I|]. split; [reflexivity|]. split; [reflexivity|]. split; [intros _; exact P|].
+    split; [intros Hn; exfalso; apply Hn; reflexivity|]. split; [tauto | reflexivity].
+  - set (p := p0 :: pt) in *. set (st := r_core rs) in *. pose proof (fv_core _ _ I) as C. fold st in C. cbn [map] in C. fold (map snd p) in C.
+    destruct (f_poison st) eqn:Po.
+    { inversion H; subst rs' r. split; [rewrite P; exact I|]. split; [reflexivity|]. split; [reflexivity|]. split; [discriminate|].
+      split; [intros _; split; [exact P | intros _; split; [reflexivity | exact Po]]|]. split; [intros _; exact Po | discriminate]. }
+    set (l := map snd p) in *.
+    assert (Lsub : forall x, In x l -> In x (exts_of (f_queue st) ++ map snd (f_durable st) ++ l)) by (intros x Hx; apply in_or_app; right; apply in_or_app; right; exact Hx).
+    assert (Lcnt : forall b, (cnt b l <= cnt b (exts_of (f_queue st) ++ map snd (f_durable st) ++ l))%nat) by (intros b; rewrite !cnt_app; lia).
+    destruct (coalesce_spec (sort_exts l)) as (groups & Eg & Sg & Sum & Blk & St & En & _).
+    { apply sort_exts_sorted. }
+    { intros x Hx. apply (proj1 (in_sort_exts _ _)) in Hx. destruct (co_ext _ _ _ _ C x (Lsub x Hx)) as (_ & Px & _). exact Px. }
+    { intros b. rewrite cnt_sort_exts. pose proof (Lcnt b). pose proof (co_one _ _ _ _ C b). lia. }
+    rewrite Eg in H.
+    destruct (scrub_calls fault groups st) as [ok st1] eqn:Ec. pose proof (scrub_calls_sbc fault groups st) as Hs. rewrite Ec in Hs. cbn [snd] in Hs.
+    destruct Hs as (S1 & S2 & S3 & S4 & S5 & S6).
+    assert (I1 : FInv l st1).
+    { split; [rewrite S1, S2, S3, S4; exact C | rewrite S6, S2; exact (fv_may _ _ I) | rewrite S2; exact (fv_dirty _ _ I)]. }
+    destruct ok; cbn [negb] in H.
+    2:{ inversion H; subst rs' r. cbn [r_core r_pending set_poison f_fs f_queue f_durable f_usage f_poison f_calls f_maydata].
+        split; [split; cbn [f_fs f_queue f_durable f_usage f_poison f_calls f_maydata]; [exact (fv_core _ _ I1) | exact (fv_may _ _ I1) | exact (fv_dirty _ _ I1)]|].
+        split; [exact S2|]. split; [exact S3|]. split; [discriminate|]. split; [intros _; split; [reflexivity | intros _; split; reflexivity]|]. split; [reflexivity | discriminate]. }
+    destruct (release_groups_ok groups (f_fs st1) (f_usage st1)) as (f' & Er & I' & D' & F').
+    { rewrite S1. exact (co_fs _ _ _ _ C). }
+    { exact Sg. }
+    { intros g Hg. rewrite S1. destruct (St g Hg) as [x [Hx Ex]]. destruct (En g Hg) as [y [Hy Ey]].
+      apply (proj1 (in_sort_exts _ _)) in Hx. apply (proj1 (in_sort_exts _ _)) in Hy.
+      destruct (co_ext _ _ _ _ C x (Lsub x Hx)) as (X1 & _ & _). destruct (co_ext _ _ _ _ C y (Lsub y Hy)) as (_ & _ & Y3). lia. }
+    { intros g b Hg Hb. rewrite S1. apply (core_not_free _ _ _ _ b C).
+      assert (0 < cnt b groups)%nat by (apply cnt_pos; exists g; split; assumption).
+      apply Blk in H0. rewrite cnt_sort_exts in H0. pose proof (Lcnt b). lia. }
+    rewrite Er in H. inversion H; subst rs' r. cbn [r_core r_pending f_fs f_queue f_durable f_usage f_poison f_calls f_maydata].
+    assert (Hsum : sum_blocks groups = sum_blocks l) by (rewrite Sum; apply sum_sort_exts).
+    assert (Hblk : forall b, (0 < cnt b groups)%nat <-> (0 < cnt b l)%nat) by (intros b; rewrite Blk, cnt_sort_exts; tauto).
+    split; [|repeat split; try discriminate; try congruence].
+    + cbn [map]. split; cbn [f_fs f_queue f_durable f_usage f_poison f_calls f_maydata].
+      * rewrite app_nil_r, S2, S3. split.
+        -- exact I'.
+        -- intros b. pose proof (co_one _ _ _ _ C b) as H1. rewrite !cnt_app in *. lia.
+        -- intros b Hb. rewrite (dev_sectors_same _ _ D'), S1 in Hb. rewrite F', S1, (co_part _ _ _ _ C b Hb), Hblk.
+           pose proof (co_one _ _ _ _ C b) as H1. rewrite !cnt_app in *. lia.
+        -- intros x Hx. unfold ext_ok. rewrite (dev_sectors_same _ _ D'), S1. apply (co_ext _ _ _ _ C).
+           apply in_app_or in Hx. destruct Hx as [Hx|Hx]; apply in_or_app; [left; exact Hx | right; apply in_or_app; left; exact Hx].
+        -- rewrite S4, (co_usage _ _ _ _ C), Hsum, !sum_blocks_app. lia.
+        -- rewrite <- S2. exact (co_flags _ _ _ _ (fv_core _ _ I1)).
+      * rewrite S6, S2. exact (fv_may _ _ I).
+      * rewrite S2. exact (fv_dirty _ _ I).
+Qed.
+
+Lemma rfinish_spec st1 pending rs' r : RInv (mkrs st1 pending) -> rfinish fault st1 pending = (rs', r) ->
+  RInv rs' /\ f_queue (r_core rs') = f_queue st1 /\ f_durable (r_core rs') = f_durable st1 /\
+  (r = ROk -> r_pending rs' = [] /\ f_poison (r_core rs') = false) /\
+  (r_pending rs' = pending \/ r_pending rs' = []) /\
+  (f_poison st1 = true -> f_poison (r_core rs') = true /\ r <> ROk).
+Proof.
+  intros I H. unfold rfinish in H. destruct (retire_pending fault (mkrs st1 pending)) as [rs2 r2] eqn:ER.
+  destruct (retire_pending_spec _ rs2 r2 I ER) as (I2 & Q2 & D2 & Ok2 & No2 & Po2 & Pk2). cbn [r_core r_pending] in *.
+  destruct r2.
+  - pose proof (Ok2 eq_refl) as Pe. specialize (Pk2 eq_refl).
+    destruct (f_poison (r_core rs2)) eqn:Po.
+    + inversion H; subst rs' r. split; [exact I2|]. split; [exact Q2|]. split; [exact D2|]. split; [discriminate|]. split; [right; exact Pe|].
+      intros _. split; [exact Po | discriminate].
+    + destruct (write_and_sync fault (r_core rs2)) as [ok st3] eqn:E3. pose proof (write_and_sync_sbc fault (r_core rs2)) as S3. rewrite E3 in S3. cbn [snd] in S3.
+      destruct S3 as (A1 & A2 & A3 & A4 & A5 & A6). inversion H; subst rs' r. cbn [r_core r_pending].
+      assert (I3 : RInv (mkrs st3 (r_pending rs2))).
+      { unfold RInv in *. cbn [r_core r_pending]. split; [rewrite A1, A2, A3, A4; exact (fv_core _ _ I2) | rewrite A6, A2; exact (fv_may _ _ I2) | rewrite A2; exact (fv_dirty _ _ I2)]. }
+      split; [exact I3|]. split; [congruence|]. split; [congruence|]. split; [intros _; split; [exact Pe | congruence]|]. split; [right; exact Pe|].
+      intros Hp. rewrite Pk2 in Po. congruence.
+  - inversion H; subst rs' r. destruct (No2 ltac:(discriminate)) as [Pn _].
+    split; [exact I2|]. split; [exact Q2|]. split; [exact D2|]. split; [discriminate|]. split; [left; exact Pn|]. intros Hp. split; [exact (Po2 Hp) | discriminate].
+  - inversion H; subst rs' r. destruct (No2 ltac:(discriminate)) as [Pn _].
+    split; [exact I2|]. split; [exact Q2|]. split; [exact D2|]. split; [discriminate|]. split; [left; exact Pn|]. intros Hp. split; [exact (Po2 Hp) | discriminate].
+  - inversion H; subst rs' r. destruct (No2 ltac:(discriminate)) as [Pn _].
+    split; [exact I2|]. split; [exact Q2|]. split; [exact D2|]. split; [discriminate|]. split; [left; exact Pn|]. intros Hp. split; [exact (Po2 Hp) | discriminate].
+Qed.
+
+Lemma rflush_spec rs rs' r : RInv rs -> rflush fault rs = (rs', r) ->
+  RInv rs' /\
+  (r = ROk -> f_queue (r_core rs') = [] /\ r_pending rs' = [] /\ f_poison (r_core rs') = false) /\
+  ((f_queue (r_core rs') = [] /\ exists pub, f_durable (r_core rs') = pub ++ f_durable (r_core rs) /\ map fst pub = map pe_id (f_queue (r_core rs))) \/
+   (f_durable (r_core rs') = f_durable (r_core rs) /\ map pe_id (f_queue (r_core rs')) = map pe_id (f_queue (r_core rs)))) /\
+  (r_pending rs' = r_pending rs \/ r_pending rs' = []) /\
+  (f_poison (r_core rs) = true -> f_poison (r_core rs') = true /\ r <> ROk).
+Proof.
+  intros I H. unfold rflush in H. destruct (attempt fault (r_core rs)) as [st1 r1] eqn:EA.
+  destruct (attempt_spec fault (map snd (r_pending rs)) (r_core rs) st1 r1 I EA) as (I1 & Ok1 & No1 & P1 & P2 & P3 & _).
+  destruct r1.
+  - (* the pass succeeded *)
+    destruct (Ok1 eq_refl) as [Qe [pub [Dp Ip]]].
+    destruct (rfinish_spec st1 (r_pending rs) rs' r I1 H) as (I2 & Q2 & D2 & Ok2 & Pe2 & Po2).
+    split; [exact I2|]. split; [intros Hr; destruct (Ok2 Hr); split; [congruence | split; assumption]|].
+    split; [left; split; [congruence | exists pub; split; [congruence | exact Ip]]|]. split; [exact Pe2|].
+    intros Hp. exact (Po2 (P1 Hp)).
+  - inversion H; subst rs' r. destruct (No1 ltac:(discriminate)) as [Dn In0]. cbn [r_core r_pending].
+    split; [exact I1|]. split; [discriminate|]. split; [right; split; assumption|]. split; [left; reflexivity|]. intros Hp. split; [exact (P1 Hp) | discriminate].
+  - inversion H; subst rs' r. destruct (No1 ltac:(discriminate)) as [Dn In0]. cbn [r_core r_pending].
+    split; [exact I1|]. split; [discriminate|]. split; [right; split; assumption|]. split; [left; reflexivity|]. intros Hp. split; [exact (P1 Hp) | discriminate].
+  - (* the allocator refused: reclaim and retry *)
+    destruct (No1 ltac:(discriminate)) as [Dn In0].
+    destruct (r_pending rs) as [|p0 pt] eqn:P.
+    + inversion H; subst rs' r. cbn [r_core r_pending].
+      split; [exact I1|]. split; [discriminate|]. split; [right; split; assumption|]. split; [left; reflexivity|]. intros Hp. split; [exact (P1 Hp) | discriminate].
+    + set (p := p0 :: pt) in *.
+      destruct (retire_pending fault (mkrs st1 p)) as [rs2 r2] eqn:ER.
+      destruct (retire_pending_spec (mkrs st1 p) rs2 r2 I1 ER) as (I2 & Q2 & D2 & Ok2 & No2 & Po2 & Pk2). cbn [r_core r_pending] in *.
+      destruct r2.
+      * specialize (Ok2 eq_refl). specialize (Pk2 eq_refl).
+        destruct (attempt fault (r_core rs2)) as [st3 r3] eqn:EA3.
+        assert (I2' : FInv (map snd (r_pending rs2)) (r_core rs2)) by exact I2.
+        destruct (attempt_spec fault (map snd (r_pending rs2)) (r_core rs2) st3 r3 I2' EA3) as (I3 & Ok3 & No3 & P31 & _ & _ & _).
+        assert (Hpoison : f_poison (r_core rs) = true -> f_poison (r_core rs2) = true) by (intros Hp; rewrite Pk2; exact (P1 Hp)).
+        destruct r3.
+        -- destruct (Ok3 eq_refl) as [Qe [pub [Dp Ip]]].
+           destruct (rfinish_spec st3 (r_pending rs2) rs' r I3 H) as (I4 & Q4 & D4 & Ok4 & Pe4 & Po4).
+           split; [exact I4|]. split; [intros Hr; destruct (Ok4 Hr); split; [congruence | split; assumption]|].
+           split; [left; split; [congruence | exists pub; split; [congruence | congruence]]|].
+           split; [right; destruct Pe4 as [E|E]; congruence|].
+           intros Hp. exact (Po4 (P31 (Hpoison Hp))).
+        -- inversion H; subst rs' r. destruct (No3 ltac:(discriminate)) as [Dn3 In3]. cbn [r_core r_pending].
+           split; [exact I3|]. split; [discriminate|]. split; [right; split; congruence|]. split; [right; exact Ok2|]. intros Hp. split; [exact (P31 (Hpoison Hp)) | discriminate].
+        -- inversion H; subst rs' r. destruct (No3 ltac:(discriminate)) as [Dn3 In3]. cbn [r_core r_pending].
+           split; [exact I3|]. split; [discriminate|]. split; [right; split; congruence|]. split; [right; exact Ok2|]. intros Hp. split; [exact (P31 (Hpoison Hp)) | discriminate].
+        -- inversion H; subst rs' r. destruct (No3 ltac:(discriminate)) as [Dn3 In3]. cbn [r_core r_pending].
+           split; [exact I3|]. split; [discriminate|]. split; [right; split; congruence|]. split; [right; exact Ok2|]. intros Hp. split; [exact (P31 (Hpoison Hp)) | discriminate].
+      * inversion H; subst rs' r. destruct (No2 ltac:(discriminate)) as [Pn _].
+        split; [exact I2|]. split; [discriminate|]. split; [right; split; congruence|]. split; [left; exact Pn|]. intros Hp. split; [exact (Po2 (P1 Hp)) | discriminate].
+      * inversion H; subst rs' r. destruct (No2 ltac:(discriminate)) as [Pn _].
+        split; [exact I2|]. split; [discriminate|]. split; [right; split; congruence|]. split; [left; exact Pn|]. intros Hp. split; [exact (Po2 (P1 Hp)) | discriminate].
+      * inversion H; subst rs' r. destruct (No2 ltac:(discriminate)) as [Pn _].
+        split; [exact I2|]. split; [discriminate|]. split; [right; split; congruence|]. split; [left; exact Pn|]. intros Hp. split; [exact (Po2 (P1 Hp)) | discriminate].
+Qed.
+
+End RetProofs.
+
+Lemma rinit_inv d f : d < U64 -> initialize d = FOk f -> RInv (rinit f).
+Proof. intros Hd Hi. unfold RInv, rinit. cbn. exact (finit_inv d f Hd Hi). Qed.
+
+Inductive rcall := RCInsert (id blocks : N) | RCDelete (id : N) | RCFlush.
+
+Definition rcall_step (fault : N -> bool) (rs : rstate) (c : rcall) : rstate :=
+  match c with
+  | RCInsert id blocks => if 0 <? blocks then renqueue rs id blocks else rs
+  | RCDelete id => rdelete rs id
+  | RCFlush => fst (rflush fault rs)
+  end.
+
+Definition rcalls (fault : N -> bool) (rs : rstate) (cs : list rcall) : rstate := fold_left (rcall_step fault) cs rs.
+
+Lemma rcalls_inv fault cs : forall rs, RInv rs -> RInv (rcalls fault rs cs).
+Proof.
+  unfold rcalls. induction cs as [|c t IH]; intros rs I; [exact I|]. cbn [fold_left]. apply IH.
+  destruct c as [id blocks|id|]; cbn [rcall_step].
+  - destruct (0 <? blocks) eqn:E; [apply renqueue_inv; [exact I | apply N.ltb_lt; exact E] | exact I].
+  - apply rdelete_inv. exact I.
+  - destruct (rflush fault rs) as [rs' r] eqn:EF. exact (proj1 (rflush_spec fault rs rs' r I EF)).
+Qed.
+
+(* MAIN 4 (C05 with deletes): after any sequence of inserts, deletes of published records and
+   flushes, whatever device calls fail, every block of the data area is free exactly when no
+   reservation, no published record and no extent waiting for its retirement covers it; no block is
+   covered twice; the usage counter counts the covered blocks *)
+Theorem ownership_partition_with_deletes fault d f cs :
+  d < U64 -> initialize d = FOk f ->
+  let rs := rcalls fault (rinit f) cs in
+  let st := r_core rs in
+  let owned := exts_of (f_queue st) ++ map snd (f_durable st) ++ map snd (r_pending rs) in
+  Inv (f_fs st) /\
+  (forall b, (cnt b owned <= 1)%nat) /\
+  (forall b, DS <= b < dev_sectors (f_fs st) -> (free (f_fs st) b <-> cnt b owned = O)) /\
+  f_usage st = sum_blocks owned.
+Proof.
+  intros Hd Hi. cbv zeta. pose proof (fv_core _ _ (rcalls_inv fault cs _ (rinit_inv d f Hd Hi))) as C.
+  split; [exact (co_fs _ _ _ _ C)|]. split; [exact (co_one _ _ _ _ C)|]. split; [exact (co_part _ _ _ _ C) | exact (co_usage _ _ _ _ C)].
+Qed.
+
+(* MAIN 5 (C09 with deletes): the same honesty of flush: Ok only when not poisoned, the queue
+   empty and every pending retirement done; entries are published all or none; the extents
+   waiting for retirement are given back all at once or not at all; poison is sticky *)
+Theorem flush_with_deletes_is_honest fault d f cs :
+  d < U64 -> initialize d = FOk f ->
+  let rs := rcalls fault (rinit f) cs in
+  forall rs' r, rflush fault rs = (rs', r) ->
+  (r = ROk -> f_queue (r_core rs') = [] /\ r_pending rs' = [] /\ f_poison (r_core rs') = false) /\
+  ((f_queue (r_core rs') = [] /\ exists pub, f_durable (r_core rs') = pub ++ f_durable (r_core rs) /\ map fst pub = map pe_id (f_queue (r_core rs))) \/
+   (f_durable (r_core rs') = f_durable (r_core rs) /\ map pe_id (f_queue (r_core rs')) = map pe_id (f_queue (r_core rs)))) /\
+  (r_pending rs' = r_pending rs \/ r_pending rs' = []) /\
+  (f_poison (r_core rs) = true -> f_poison (r_core rs') = true /\ r <> ROk).
+Proof.
+  intros Hd Hi. cbv zeta. intros rs' r H.
+  exact (proj2 (rflush_spec fault _ rs' r (rcalls_inv fault cs _ (rinit_inv d f Hd Hi)) H)).
 Qed.
